@@ -12,6 +12,15 @@ For selected models every configuration is driven through the same script of rea
 functions and edits through the public Model API (variable attributes, parameter values,
 equations, initial equations, delay arguments); at every read point the functions are again
 proved equal to configuration 0's by z3.
+
+Third dimension (other options held fixed): the 8 configurations are layered on top of a fixed setting of
+the remaining compiler options (BASES): the defaults for every model, expand_vectors=True for a
+selection (quick) / a third of everything (thorough), and in the thorough tier each simplification option
+alone and together with expand_vectors on representatives.  Case ids carry the option set as `@<name>`.
+
+Families local to this check (round 3): attributes given by calls of user functions (fun-attr), function
+for-statements over general ranges that subscript arrays (fun-range), sums of conditional terms with a
+zero branch (guard), one equation per operator (ops), option-sensitive models (opt).
 """
 import itertools
 import sys
